@@ -80,3 +80,23 @@ func VerifGCRemoveFromCommonAncestor(height uint64) bool {
 func VerifGCSyncGroupsByHeight(height uint64, limit int) []*types.Group {
 	return groupChainImpl.GetSyncGroupsByHeight(height, limit)
 }
+
+// VerifGCForkSwitch builds a group fork on the chain group stored at ancHeight (newGroupChainFork), stores
+// the given groups in the fork's scratch DB the way addGroupOnFork does after a successful verifyGroup
+// (verifyGroup itself needs the block chain and is not called), runs triggerOnChain against the group
+// chain and destroys the fork. found = false: the chain has no group at ancHeight.
+func VerifGCForkSwitch(ancHeight uint64, groups []*types.Group) (found bool, onChain bool) {
+	chain := groupChainImpl
+	anc := chain.GetGroupByHeight(ancHeight)
+	if anc == nil {
+		return false, false
+	}
+	fork := newGroupChainFork(anc)
+	for _, g := range groups {
+		fork.insertGroup(g)
+		fork.latestGroup = g
+	}
+	onChain = fork.triggerOnChain(chain)
+	fork.destroy()
+	return true, onChain
+}
